@@ -1,0 +1,9 @@
+//go:build verif
+
+package router
+
+// Verification hooks for the SCMP slow path (build tag verif). Add-only; no behaviour change.
+
+// VerifE2EAuthHdrLen is the number of bytes prepareSCMP reserves for the end-to-end
+// extension header that carries the packet authenticator option.
+const VerifE2EAuthHdrLen = e2eAuthHdrLen
